@@ -82,6 +82,23 @@ func searchRes(ia uint16) []byte {
 	return frame(0x0202, []byte{8, 1, 192, 0, 2, byte(ia), 0x0e, 0x57}, devDIB(ia), svcDIB)
 }
 
+// c20OtherFrames: well-formed frames of every service type a describe / discover socket may see
+// besides its own responses: the material for the truncations.
+func c20OtherFrames(ia uint16) [][]byte {
+	h := knxnet.HostInfo{Protocol: knxnet.UDP4, Address: knxnet.Address{192, 0, 2, 1}, Port: 3671}
+	return [][]byte{
+		pack(&knxnet.TunnelRes{Channel: 1, SeqNumber: 2, Status: 0}),
+		pack(&knxnet.ConnStateRes{Channel: 1, Status: 0}),
+		pack(&knxnet.ConnRes{Channel: 1, Status: 0, Control: h}),
+		pack(&knxnet.DiscReq{Channel: 1, Control: h}),
+		pack(&knxnet.DiscRes{Channel: 1}),
+		pack(&knxnet.ConnStateReq{Channel: 1, Control: h}),
+		pack(&knxnet.TunnelReq{Channel: 1, SeqNumber: 0, Payload: ldata(3)}),
+		pack(&knxnet.RoutingInd{Payload: ldata(1)}),
+		pack(&knxnet.SearchReq{HostInfo: h}),
+	}
+}
+
 // Ev is one scheduled environment event (logged when it is injected).
 type Ev struct {
 	At   mc.Duration
@@ -150,6 +167,17 @@ func c20Schedule(ep *vnet.Endpoint, evs []Ev, discover bool) {
 				ep.Inject([]byte{6, 0x10, 2}, nil)
 				ep.Inject([]byte{6, 0x10, 2, 8, 0, 4, 1, 0}, nil)       // header announces a total length of 4
 				ep.Inject([]byte{6, 0x10, 2, 4, 0xFF, 0xFF, 0, 0}, nil) // ... of 65535
+			case "truncated":
+				// every truncation of frames of the other service types,
+				// with the header still announcing the whole frame and with a header that tells the truth
+				for _, f := range c20OtherFrames(e.IA) {
+					for cut := 6; cut < len(f); cut++ {
+						ep.Inject(f[:cut], nil)
+						t := append([]byte{}, f[:cut]...)
+						t[4], t[5] = byte(cut>>8), byte(cut)
+						ep.Inject(t, nil)
+					}
+				}
 			case "other":
 				ep.Inject(pack(&knxnet.ConnStateRes{Channel: 1}), nil)
 				if discover {
@@ -501,4 +529,59 @@ func init() {
 	register("thorough", &h.Scenario{Name: "C20-describe-5slots", Prop: "C20", Cfg: mc.Config{SpinLimit: 400}, P: 0, F: 0, D: -1, Run: c20Describe(5), Check: c20Oracle(false)})
 	register("thorough", &h.Scenario{Name: "C20-discover-5slots", Prop: "C20", Cfg: mc.Config{SpinLimit: 400}, P: 0, F: 0, D: -1, Run: c20Discover(5, 0), Check: c20Oracle(true)})
 	register("thorough", &h.Scenario{Name: "C20-describe-3slots-P2", Prop: "C20", Cfg: mc.Config{SpinLimit: 400}, P: 2, F: 0, D: 2, Run: c20Describe(3), Check: c20Oracle(false)})
+}
+
+// c20Truncated: every truncation of well-formed frames of the other service types arrives first
+// (none of them is a response, none of them may disturb the call), the response(s) 10 and 20 ms
+// later, well inside the 500 ms timeout.
+func c20Truncated(discover bool) func() {
+	return func() {
+		defer logChoice()()
+		timeout := 500 * ms
+		w := vnet.Reset()
+		var ep *vnet.Endpoint
+		evs := []Ev{{0, "truncated", 0x1100, 0}, {10 * ms, "resp", 0x1101, 1}, {20 * ms, "resp", 0x1102, 2}}
+		w.OnCreate = func(e *vnet.Endpoint) {
+			ep = e
+			started := false
+			e.OnWrite = func(wr vnet.WriteRec) {
+				if !started {
+					started = true
+					c20Schedule(e, evs, discover)
+				}
+			}
+		}
+		t0 := mc.Now()
+		var ret CallRet
+		if discover {
+			res, err := knx.DiscoverOnInterface(nil, "224.0.23.12:3671", timeout)
+			ret = CallRet{Timeout: timeout, What: fmt.Sprintf("Discover(timeout=%v)", timeout), Err: errStr(err), T0: t0}
+			for _, r := range res {
+				ret.IAs = append(ret.IAs, uint16(r.DescriptionB.DeviceHardware.Source))
+				ret.Content = append(ret.Content, devContent(r.DescriptionB.DeviceHardware.FriendlyName, r.DescriptionB.SupportedServices.Families))
+			}
+		} else {
+			res, err := knx.DescribeTunnel("192.0.2.99:3671", timeout)
+			ret = CallRet{Timeout: timeout, What: fmt.Sprintf("Describe(timeout=%v)", timeout), Err: errStr(err), T0: t0}
+			if res != nil {
+				ret.IAs = []uint16{uint16(res.DeviceHardware.Source)}
+				ret.Content = []string{devContent(res.DeviceHardware.FriendlyName, res.SupportedServices.Families)}
+				ret.Further = furtherHex(res)
+			}
+		}
+		if ep != nil {
+			ret.Closed = ep.Closed
+			for _, wr := range ep.Writes {
+				ret.Writes = append(ret.Writes, hex.EncodeToString(wr.Data))
+			}
+		}
+		mc.Log(ret)
+		mc.Sleep(timeout + 5*ms)
+		censusNote()
+	}
+}
+
+func init() {
+	register("both", &h.Scenario{Name: "C20-describe-behind-every-truncation-of-other-frames", Prop: "C20", Cfg: mc.Config{SpinLimit: 400}, P: 0, F: 0, D: -1, Run: c20Truncated(false), Check: c20Oracle(false)})
+	register("both", &h.Scenario{Name: "C20-discover-behind-every-truncation-of-other-frames", Prop: "C20", Cfg: mc.Config{SpinLimit: 400}, P: 0, F: 0, D: -1, Run: c20Truncated(true), Check: c20Oracle(true)})
 }
